@@ -474,6 +474,11 @@ impl DatabaseHandle {
     pub(crate) fn select(&mut self, headers: &HeaderCollection) -> Iin2 {
         let mut iin2 = Iin2::default();
         let mut guard = self.inner.lock().unwrap();
+        // Forget any selection left behind by a response that was never confirmed (the
+        // connection dropped during the confirm wait, an unsolicited series timed out or was
+        // cancelled). The deferred READ and unsolicited paths do the same. Otherwise those
+        // events are not reported by this READ and are released by its confirmation.
+        guard.inner.reset();
         for header in headers.iter() {
             match ReadHeader::get(&header) {
                 None => {
